@@ -45,6 +45,17 @@ EndWriteFailed == /\ IsEvent("api_end") /\ call # Idle /\ call.kind = "write" /\
                   /\ Ev.outcome = "error" /\ Ev.res = "error" /\ WriteFailedRefines
                   /\ call' = Idle /\ fslog' = <<>>
 
+(* the one open failed (the efivars directory does not exist): that is all the call did - no directory is created, nothing is opened *)
+(* again - and it reports an error                                                                                                *)
+OpenFailedRefines ==
+  /\ Len(fslog) = 1
+  /\ LET o == fslog[1] IN
+     /\ o.fsop = "OpenFile" /\ o.path = call.path /\ o.acc = "WRONLY" /\ o.create
+     /\ (o.append <=> ("APPEND_WRITE" \in SetOf(call.vattrs))) /\ ~o.trunc /\ ~o.excl /\ o.err # ""
+EndWriteOpenFailed == /\ IsEvent("api_end") /\ call # Idle /\ call.kind = "write" /\ Ev.kind = "write"
+                      /\ Ev.outcome = "error" /\ Ev.res = "error" /\ OpenFailedRefines
+                      /\ call' = Idle /\ fslog' = <<>>
+
 (* ---- read: result defined by the pre-state; no mutation of the store ---- *)
 ReadOnlyFs == \A k \in 1..Len(fslog) : fslog[k].fsop \in {"Open", "Stat", "Read", "ReadAt", "Seek", "Close", "FsStat"} /\ fslog[k].path = call.path
 Required == IF call.api = "legacy" THEN {} ELSE SetOf(call.vattrs)     \* the legacy reader hands back raw attributes
@@ -64,7 +75,7 @@ EndRead == /\ IsEvent("api_end") /\ call # Idle /\ call.kind \in {"read", "reada
                  /\ (call.api = "obj" => Ev.unmarshal_called)
                  /\ (call.api = "legacytyped" => Ev.outcome = "value")
            /\ call' = Idle /\ fslog' = <<>>
-Conform == Reset \/ Begin \/ Fs \/ EndWrite \/ EndWriteFailed \/ EndRead
+Conform == Reset \/ Begin \/ Fs \/ EndWrite \/ EndWriteFailed \/ EndWriteOpenFailed \/ EndRead
 Deviate == /\ l <= Len(Trace) /\ ~ENABLED Conform
            /\ TLCSet(2, TLCGet(2) \cup {l})
            /\ l' = Ev.nx /\ call' = Idle /\ fslog' = <<>>
